@@ -419,7 +419,6 @@ impl<'a> CompiledPredicate<'a> {
 
     fn values_equal(&self, a: &Value<'a>, b: &Value<'a>) -> bool {
         match (a, b) {
-            (Value::Null, Value::Null) => true,
             (Value::Null, _) | (_, Value::Null) => false,
             (Value::Int(x), Value::Int(y)) => x == y,
             (Value::Float(x), Value::Float(y)) => x == y,
